@@ -1,3 +1,5 @@
+//go:build !no_c06b
+
 package props
 
 import (
